@@ -21,13 +21,20 @@ pub trait DtnTimeHelpers {
 impl DtnTimeHelpers for DtnTime {
     /// Convert to unix timestamp (in seconds).
     fn unix(self) -> u64 {
-        (self + MS1970_TO2K) / 1000
+        // the epoch offset is a whole number of seconds, so it can be added after the division
+        self / 1000 + SECONDS1970_TO2K
     }
 
     /// Convert to human readable rfc3339 compliant time string.
     fn string(self) -> String {
-        let d = UNIX_EPOCH + Duration::from_millis(self + MS1970_TO2K);
-        format_rfc3339(d).to_string()
+        // rfc3339 ends with year 9999, later times are printed as plain milliseconds
+        const RFC3339_END_MS: u64 = 253_402_300_800_000;
+        match self.checked_add(MS1970_TO2K) {
+            Some(ms) if ms < RFC3339_END_MS => {
+                format_rfc3339(UNIX_EPOCH + Duration::from_millis(ms)).to_string()
+            }
+            _ => format!("{}ms", self),
+        }
     }
 }
 
